@@ -38,7 +38,19 @@ impl C06 {
                 }
             }
         }
-        let raw = ohmc_core::uni::lists(5, 3);
+        let mut raw = ohmc_core::uni::lists(5, 3);
+        // longer tables: every table of length 4..6 over {0,1,2}, and all-zero tables of length 5..33 with one
+        // entry raised to 1, 2 or 3 at every position (an out-of-range entry anywhere must be seen)
+        raw.extend(ohmc_core::uni::lists(3, 6).into_iter().filter(|l| l.len() >= 4));
+        for len in [5usize, 6, 7, 8, 9, 15, 16, 17, 31, 32, 33] {
+            for pos in 0..len {
+                for v in 1..=3usize {
+                    let mut t = vec![0; len];
+                    t[pos] = v;
+                    raw.push(t);
+                }
+            }
+        }
         let mut inj = vec![];
         for n in 0..=3usize {
             for sizes in ohmc_core::uni::tables(n, 4) {
